@@ -54,6 +54,7 @@ Maps(X, Y) == {Val("Map", "", <<KeyS("k"), x>>) : x \in X} \cup {Val("Map", "", 
               \cup {Val("Map", "", <<Val("Seq", "", <<Val("I", "1", <<>>)>>), x>>) : x \in X}          \* composite key
               \cup {Val("Map", "", <<Val("Struct", "", <<Val("I", "1", <<>>)>>), x>>) : x \in X}       \* struct key
               \cup {Val("Map", "", <<Val("Tup", "", <<Val("I", "1", <<>>), Val("S", "x", <<>>)>>), x>>) : x \in X}   \* composite key of two elements
+              \cup {Val("Map", "", <<k, x>>) : k \in {Val("B", "false", <<>>), Val("UV", "", <<>>), Val("Some", "", <<Val("I", "1", <<>>)>>)}, x \in X}   \* bool / unit variant / Some(int) key
 Empties == {Val("Seq", "", <<>>), Val("Map", "", <<>>), Val("Tup", "", <<>>), Val("Struct", "", <<>>)}
 Level(X, Y) ==     \* one more constructor on top: children from X (and the second child from Y)
   Unary(X) \cup Nary({<<x>> : x \in X}) \cup Nary(Pairs(X, Y)) \cup Nary(Pairs(Y, X)) \cup Maps(X, Y) \cup Maps(Y, X)
